@@ -212,17 +212,34 @@ func KPEnumerate(items []KPItem, width float64, p KPParams) KPAll {
 		legal[i] = KPLegal(items, i, p)
 		forced[i] = KPForced(items, i, p)
 	}
-	path := make([]int, 0, n)
-	var rec func(a, fit int, fl bool, dem float64, feasible, fits bool, maxR float64)
-	rec = func(a, fit int, fl bool, dem float64, feasible, fits bool, maxR float64) {
+	// line table: tab[a+1][b] is the line from break a (-1 = start) to break b
+	tab := make([][]KPLine, n+1)
+	for a := -1; a < n; a++ {
+		if a >= 0 && !legal[a] {
+			continue
+		}
+		tab[a+1] = make([]KPLine, n)
 		for b := a + 1; b < n; b++ {
 			if legal[b] {
 				ln := KPLineOf(items, a, b, width)
+				tab[a+1][b] = ln
 				for _, edge := range [2]float64{-1, p.Tolerance} {
 					if ln.Ratio != edge && math.Abs(ln.Ratio-edge) < 1e-9 {
 						res.Boundary = true
 					}
 				}
+			}
+			if forced[b] {
+				break
+			}
+		}
+	}
+	path := make([]int, 0, n)
+	var rec func(a, fit int, fl bool, dem float64, feasible, fits bool, maxR float64)
+	rec = func(a, fit int, fl bool, dem float64, feasible, fits bool, maxR float64) {
+		for b := a + 1; b < n; b++ {
+			if legal[b] {
+				ln := tab[a+1][b]
 				f2 := feasible && ln.Ratio >= -1 && ln.Ratio <= p.Tolerance
 				t2 := fits && ln.Ratio >= -1
 				d, c := KPLineDemerits(items, b, ln.Ratio, fit, fl, p)
